@@ -382,7 +382,8 @@ class Zeroconf(QuietLogger):
             if described is None or described.server_key is None:
                 continue
             # address records are left alone when another service uses the host name
-            if len(self.registry.async_get_infos_server(described.server_key)) <= 1:
+            users = self.registry.async_get_infos_server(described.server_key)
+            if all(user.key == info.key for user in users):
                 names.add(described.server_key)
         current: Set[DNSRecord] = {info.dns_service(), info.dns_text()}
         current.update(info.get_address_and_nsec_records())
